@@ -361,6 +361,10 @@ struct Ctx {
     in_func: bool,
     /// inside a finally block: keep it simple (no control flow out of it)
     in_finally: bool,
+    /// inside a try expression that is an element of a tuple under construction: `return`,
+    /// `break` and `continue` would leave the VM's sequence builder behind on a SUCCESS path
+    /// (koto behaviour outside the properties studied here), so they are not generated
+    no_abrupt: bool,
 }
 
 impl<'a> Gen<'a> {
@@ -550,6 +554,7 @@ impl<'a> Gen<'a> {
                 16..=19 if nested_ok && !c.in_finally => Stmt::Try(Box::new(self.try_stmt(c))),
                 20 if c.loop_level > 0
                     && !c.in_finally
+                    && !c.no_abrupt
                     && (c.tries_in_loop == 0 || self.k.allow_break_in_try)
                     && (!c.in_finally_try || self.k.allow_abrupt_in_finally_try) =>
                 {
@@ -557,6 +562,7 @@ impl<'a> Gen<'a> {
                 }
                 21 if c.in_func
                     && !c.in_finally
+                    && !c.no_abrupt
                     && (!c.in_try || self.k.allow_return_in_try)
                     && (!c.in_finally_try || self.k.allow_abrupt_in_finally_try) =>
                 {
@@ -606,11 +612,17 @@ impl<'a> Gen<'a> {
         let id = self.p.n_tries;
         let has_finally = self.k.allow_finally && self.r.chance(1, 3);
         let with_result = self.k.allow_try_result && self.r.chance(1, 2);
+        let tuple_prefix = if with_result && self.r.chance(1, 4) {
+            Some(self.small_int_expr(c))
+        } else {
+            None
+        };
         let c_body = Ctx {
             depth: c.depth + 1,
             tries_in_loop: c.tries_in_loop + 1,
             in_try: true,
             in_finally_try: c.in_finally_try || has_finally,
+            no_abrupt: c.no_abrupt || tuple_prefix.is_some(),
             ..c
         };
         let body = self.block(c_body, with_result);
@@ -634,7 +646,7 @@ impl<'a> Gen<'a> {
             kind: CatchKind::Any,
             block: self.block(c_body, with_result),
         });
-        if self.k.dense_exits && c.loop_level > 0 && !c.in_finally && self.r.chance(2, 3) {
+        if self.k.dense_exits && c.loop_level > 0 && !c.in_finally && !c_body.no_abrupt && self.r.chance(2, 3) {
             for cb in catches.iter_mut() {
                 let last_terminal = cb
                     .block
@@ -656,14 +668,10 @@ impl<'a> Gen<'a> {
             let c_fin = Ctx {
                 depth: c.depth + 1,
                 in_finally: true,
+                no_abrupt: c.no_abrupt || tuple_prefix.is_some(),
                 ..c
             };
             Some(self.block(c_fin, with_result))
-        } else {
-            None
-        };
-        let tuple_prefix = if with_result && self.r.chance(1, 4) {
-            Some(self.small_int_expr(c))
         } else {
             None
         };
@@ -696,6 +704,7 @@ pub fn generate(r: &mut Rng, k: &GenKnobs) -> Program {
         in_finally_try: false,
         in_func: true,
         in_finally: false,
+        no_abrupt: false,
     };
     // generate callees last-first so that every function can call the ones after it
     let mut funcs = vec![Func::default(); nfuncs];
